@@ -45,7 +45,8 @@ fn gen_noise(r: &mut SimRng, asset: usize, id_start: u32, corner: bool, heavy: b
     AgentSpec::Noise {
         asset,
         id_start,
-        n: r.range(1, 15) as u16,
+        // (rarely a population beyond 4096 traders: per-agent bookkeeping with fixed capacities)
+        n: if corner && r.chance(0.004) { r.range(4090, 5200) as u16 } else { r.range(1, 15) as u16 },
         p_limit: prob(r, corner),
         p_market: prob(r, corner),
         p_cancel: prob(r, corner),
@@ -98,6 +99,8 @@ fn base_cfg(r: &mut SimRng, prop: &str, max_steps: u64) -> W4Cfg {
         warmup: 1,
         extra_step_every: 0,
         abandoned_first: false,
+        small_levels: market && assets == 3 && r.chance(0.4),
+        prestep: 0,
     }
 }
 
@@ -157,6 +160,15 @@ pub fn generate_c09(seed: u64) -> W4Scn {
     let heavy = r.chance(0.33);
     let agents = gen_groups(&mut r, &cfg, false, heavy);
     cfg.abandoned_first = r.chance(0.3);
+    cfg.prestep = *r.pick(&[0u8, 0, 0, 1, 1, 3]);
+    // rarely: two large, fully active random populations on different assets (thousands of instructions per step)
+    let mut agents = agents;
+    if cfg.market && cfg.assets >= 2 && r.chance(0.01) {
+        for a in 0..2 {
+            agents.insert(0, AgentSpec::Random { asset: a, n: 2600, tick_lo: cfg.centre.saturating_sub(30).max(1), tick_hi: cfg.centre + 30, vol_lo: 1, vol_hi: 40, activity: 1.0 });
+        }
+        cfg.n_steps = cfg.n_steps.min(3).max(2);
+    }
     let kind = *r.pick(&[0u64, 3, 3, 3, 1, 2]);
     let initial = gen_initial(&mut r, &cfg, kind);
     // a separate OS process for half of the runs, each with its own perturbation set
@@ -176,12 +188,11 @@ pub fn generate_c09(seed: u64) -> W4Scn {
     // seed-domain boundary runs: the seed is one of the corner values of the u64 domain (0, the top of the range, the
     // 32-bit and sign boundaries) and a group with guaranteed activity is present, so that the neighbouring seeds
     // (s-1, s+1, wrapping) must give a different run
-    let mut agents = agents;
     if r.chance(0.15) {
         cfg.seed = *r.pick(&[0u64, 0, 1, 2, u64::MAX, u64::MAX, u64::MAX - 1, u64::MAX - 1, (1 << 32) - 1, 1 << 32, (1 << 63) - 1, 1 << 63, u64::MAX - (1 << 32)]);
         if !guaranteed {
             let asset = r.usize(cfg.assets);
-            agents.push(AgentSpec::Random { asset, n: 6, tick_lo: cfg.centre.saturating_sub(20).max(1), tick_hi: cfg.centre + 20, vol_lo: 1, vol_hi: 60, activity: 1.0 });
+            agents.insert(0, AgentSpec::Random { asset, n: 6, tick_lo: cfg.centre.saturating_sub(20).max(1), tick_hi: cfg.centre + 20, vol_lo: 1, vol_hi: 60, activity: 1.0 });
             cfg.n_steps = cfg.n_steps.max(5);
         }
         cfg.seeds_differ = true;
@@ -208,6 +219,10 @@ pub fn generate_c16(seed: u64) -> W4Scn {
         } else {
             agents.push(g);
         }
+    }
+    if agents.iter().any(|a| matches!(a, AgentSpec::Noise { n, .. } | AgentSpec::Momentum { n, .. } if *n > 1000)) {
+        // a population of thousands: a few steps are enough (and keep the run affordable)
+        cfg.n_steps = cfg.n_steps.min(4).max(2);
     }
     let kind = if r.chance(0.12) { 4 + r.below(2) } else { r.below(4) };
     let mut initial = gen_initial(&mut r, &cfg, kind);
